@@ -1,3 +1,5 @@
 import Audit.Tool
 import Adb.Props.C18
+import Adb.Props.C18Assembly
 #audit_module Adb.Props.C18
+#audit_module Adb.Props.C18Assembly
